@@ -354,4 +354,87 @@ theorem touchEq_option (t : Target) (a a' : Arr) (i : Nat) :
   unfold touchEq optOf
   simp only [peelTarget, Bool.true_or]
 
+theorem touchEq_any (a a' : Arr) (i : Nat) : touchEq .any a a' i = touchEqW true .any a a' i := by
+  unfold touchEq optOf
+  simp [peelTarget, isAnyLike]
+
+/-! ### fields of struct columns, children of union columns -/
+
+theorem allEq_nil {t : Target} {fs' : ArrFields} {i : Nat} (h : allEq t .nil fs' i = true) : fs' = .nil := by
+  unfold allEq at h
+  split at h
+  · rfl
+  · cases h
+
+theorem allEq_cons {t : Target} {fm : FieldMeta} {c : Arr} {r fs' : ArrFields} {i : Nat}
+    (h : allEq t (.cons fm c r) fs' i = true) :
+    ∃ fm' c' r', fs' = .cons fm' c' r' ∧ fm.name = fm'.name ∧ touchEq t c c' i = true ∧ allEq t r r' i = true := by
+  unfold allEq at h
+  split at h
+  · simp only [Bool.and_eq_true, decide_eq_true_eq] at h
+    exact ⟨_, _, _, rfl, h.1.1, h.1.2, h.2⟩
+  · cases h
+
+theorem namedEq_nil {tfs : TFields} {fs' : ArrFields} {i : Nat} (h : namedEq tfs .nil fs' i = true) : fs' = .nil := by
+  unfold namedEq at h
+  split at h
+  · rfl
+  · cases h
+
+theorem namedEq_cons {tfs : TFields} {fm : FieldMeta} {c : Arr} {r fs' : ArrFields} {i : Nat}
+    (h : namedEq tfs (.cons fm c r) fs' i = true) :
+    ∃ fm' c' r', fs' = .cons fm' c' r' ∧ fm.name = fm'.name ∧
+      (∀ tt, tfieldNamed tfs fm.name = some tt → touchEq tt c c' i = true) ∧
+      (tfieldNamed tfs fm.name = none → touchEqW true .any c c' i = true) ∧ namedEq tfs r r' i = true := by
+  unfold namedEq at h
+  split at h
+  · simp only [Bool.and_eq_true, decide_eq_true_eq] at h
+    refine ⟨_, _, _, rfl, h.1.1, ?_, ?_, h.2⟩
+    · intro tt htt
+      have h2 := h.1.2
+      simp only [htt] at h2
+      exact h2
+    · intro htt
+      have h2 := h.1.2
+      simp only [htt] at h2
+      exact h2
+  · cases h
+
+theorem tupleEq_cons_nil {t : Target} {ts : Targets} {fs' : ArrFields} {i : Nat} (h : tupleEq (.cons t ts) .nil fs' i = true) :
+    fs' = .nil := by
+  unfold tupleEq at h
+  split at h
+  · rfl
+  · cases h
+
+theorem tupleEq_cons_cons {t : Target} {ts : Targets} {fm : FieldMeta} {c : Arr} {r fs' : ArrFields} {i : Nat}
+    (h : tupleEq (.cons t ts) (.cons fm c r) fs' i = true) :
+    ∃ fm' c' r', fs' = .cons fm' c' r' ∧ touchEq t c c' i = true ∧ tupleEq ts r r' i = true := by
+  unfold tupleEq at h
+  split at h
+  · simp only [Bool.and_eq_true] at h
+    exact ⟨_, _, _, rfl, h.1, h.2⟩
+  · cases h
+
+theorem variantEq_zero {vt : String → Option Target} {tid : Int} {fm : FieldMeta} {c : Arr} {r fs' : ArrUFields} {j : Nat}
+    (h : variantEq vt (.cons tid fm c r) fs' 0 j = true) :
+    ∃ tid' fm' c' r', fs' = .cons tid' fm' c' r' ∧ fm.name = fm'.name ∧ ∀ t, vt fm.name = some t → touchEq t c c' j = true := by
+  unfold variantEq at h
+  split at h
+  · simp only [Bool.and_eq_true, decide_eq_true_eq] at h
+    refine ⟨_, _, _, _, rfl, h.1, ?_⟩
+    intro t ht
+    have h2 := h.2
+    simp only [ht] at h2
+    exact h2
+  · cases h
+
+theorem variantEq_succ {vt : String → Option Target} {tid : Int} {fm : FieldMeta} {c : Arr} {r fs' : ArrUFields} {k j : Nat}
+    (h : variantEq vt (.cons tid fm c r) fs' (k + 1) j = true) :
+    ∃ tid' fm' c' r', fs' = .cons tid' fm' c' r' ∧ variantEq vt r r' k j = true := by
+  unfold variantEq at h
+  split at h
+  · exact ⟨_, _, _, _, rfl, h⟩
+  · cases h
+
 end SaModel.Props.C17
